@@ -48,11 +48,36 @@ where
     }
 }
 
+/// every stream-API entry point on the same bytes: affine and projective types, whole and chunked readers
+fn serdes_all<A, G>(bytes: &[u8], c: bool) -> Value
+where
+    A: CurveAffine<Projective = G> + SerDes,
+    G: CurveProjective<Affine = A> + SerDes + Grp,
+    A::Base: J,
+    G::Base: J,
+{
+    let mut out = vec![];
+    for chunk in [0usize, 1, 7, 48, 95].iter() {
+        let mut cur = Cursor::new(bytes.to_vec());
+        let ra = if *chunk == 0 { A::deserialize(&mut cur, c) } else { A::deserialize(&mut Chunked { inner: &mut cur, chunk: *chunk }, c) };
+        out.push(json!({"ty": "aff", "chunk": chunk, "consumed": cur.position(),
+                        "res": match ra { Ok(p) => json!(["ok", aff_to_j(&p)]), Err(_) => json!(["err"]) }}));
+        let mut cur = Cursor::new(bytes.to_vec());
+        let rp = if *chunk == 0 { G::deserialize(&mut cur, c) } else { G::deserialize(&mut Chunked { inner: &mut cur, chunk: *chunk }, c) };
+        out.push(json!({"ty": "proj", "chunk": chunk, "consumed": cur.position(),
+                        "res": match rp { Ok(p) => json!(["ok", proj_to_j(&p)]), Err(_) => json!(["err"]) }}));
+    }
+    Value::Array(out)
+}
+
 macro_rules! decode_as_impl {
-    ($name:ident, $E:ty) => {
+    ($name:ident, $E:ty, $A:ty, $G:ty, $c:expr) => {
         fn $name(bytes: &[u8]) -> Value {
+            if bytes.len() != <$E>::size() {
+                // not a string of the encoding's length: only the stream API can be handed it
+                return json!({"serdes": serdes_all::<$A, $G>(bytes, $c)});
+            }
             let mut e = <$E>::empty();
-            assert_eq!(bytes.len(), <$E>::size(), "wrong length for this encoding");
             e.as_mut().copy_from_slice(bytes);
             let checked = e.into_affine();
             let reenc_c = match &checked {
@@ -62,14 +87,15 @@ macro_rules! decode_as_impl {
                 Err(_) => json!(false),
             };
             let unchecked = e.into_affine_unchecked();
-            json!({"checked": dec_res(checked), "unchecked": dec_res(unchecked), "reenc": reenc_c})
+            json!({"checked": dec_res(checked), "unchecked": dec_res(unchecked), "reenc": reenc_c,
+                   "serdes": serdes_all::<$A, $G>(bytes, $c)})
         }
     };
 }
-decode_as_impl!(decode_g1c, pairing::bls12_381::G1Compressed);
-decode_as_impl!(decode_g1u, pairing::bls12_381::G1Uncompressed);
-decode_as_impl!(decode_g2c, pairing::bls12_381::G2Compressed);
-decode_as_impl!(decode_g2u, pairing::bls12_381::G2Uncompressed);
+decode_as_impl!(decode_g1c, pairing::bls12_381::G1Compressed, G1Affine, G1, true);
+decode_as_impl!(decode_g1u, pairing::bls12_381::G1Uncompressed, G1Affine, G1, false);
+decode_as_impl!(decode_g2c, pairing::bls12_381::G2Compressed, G2Affine, G2, true);
+decode_as_impl!(decode_g2u, pairing::bls12_381::G2Uncompressed, G2Affine, G2, false);
 
 fn exec_decode(g: &str, op: &Value) -> Value {
     let bytes = j_to_bytes(&op["bytes"]);
@@ -227,6 +253,23 @@ macro_rules! exec_prod_impl {
             let scr: Vec<&[u64; 4]> = sc.iter().collect();
             vec![<$A>::sum_of_products(&pts, &scr)]
         }
+        // the precomputation tables are points handed out to the caller as well (and fed back)
+        "precomp" => {
+            let a = p().into_affine();
+            let k = scalar_repr(&op["k"]);
+            let filler = <$A>::one();
+            let mut pre3 = vec![filler; 3];
+            a.precomp_3(&mut pre3);
+            let mut pre256 = vec![filler; 256];
+            a.precomp_256(&mut pre256);
+            let mut v: Vec<$G> = pre3.iter().map(|x| x.into_projective()).collect();
+            for i in op["idx"].as_array().unwrap() {
+                v.push(pre256[i.as_u64().unwrap() as usize].into_projective());
+            }
+            v.push(a.mul_precomp_3(k, &pre3));
+            v.push(a.mul_precomp_256(k, &pre256));
+            v
+        }
         "decode" => {
             let bytes = j_to_bytes(&op["bytes"]);
             let r = if op["form"] == "c" {
@@ -239,9 +282,20 @@ macro_rules! exec_prod_impl {
                 e.into_affine()
             };
             let mut v: Vec<$G> = r.ok().into_iter().map(|a| a.into_projective()).collect();
-            let mut cur = Cursor::new(bytes);
-            if let Ok(x) = <$G>::deserialize(&mut cur, op["form"] == "c") {
-                v.push(x);
+            // the stream API, both types, whole and chunked readers
+            for chunk in [0usize, 5, 48].iter() {
+                let mut cur = Cursor::new(bytes.clone());
+                let rp = if *chunk == 0 { <$G>::deserialize(&mut cur, op["form"] == "c") }
+                         else { <$G>::deserialize(&mut Chunked { inner: &mut cur, chunk: *chunk }, op["form"] == "c") };
+                if let Ok(x) = rp {
+                    v.push(x);
+                }
+                let mut cur = Cursor::new(bytes.clone());
+                let ra = if *chunk == 0 { <$A>::deserialize(&mut cur, op["form"] == "c") }
+                         else { <$A>::deserialize(&mut Chunked { inner: &mut cur, chunk: *chunk }, op["form"] == "c") };
+                if let Ok(x) = ra {
+                    v.push(x.into_projective());
+                }
             }
             v
         }
@@ -533,6 +587,32 @@ pub fn exec_misc(st: &mut MiscState, op: &Value) -> Value {
                     let refs: Vec<_> = prep.iter().map(|(a, b)| (a, b)).collect();
                     let ml = Bls12::miller_loop(refs.iter());
                     out.insert("fe".into(), fq12_opt(Bls12::final_exponentiation(&ml)));
+                    // the same list handed over in other forms of `IntoIterator` (inexact size hints,
+                    // a user-defined iterator, the collection itself, adaptors)
+                    if op.get("plain").is_none() {
+                    struct Plain<'a, T>(&'a [T], usize);
+                    impl<'a, T> Iterator for Plain<'a, T> {
+                        type Item = &'a T;
+                        fn next(&mut self) -> Option<&'a T> {
+                            let r = self.0.get(self.1);
+                            self.1 += 1;
+                            r
+                        }
+                    }
+                    let half = refs.len() / 2;
+                    let nested: Vec<Vec<_>> = vec![refs[..half].to_vec(), vec![], refs[half..].to_vec()];
+                    let rev: Vec<_> = refs.iter().rev().cloned().collect();
+                    let forms = vec![
+                        Bls12::miller_loop(refs.iter().filter(|_| true)),
+                        Bls12::miller_loop(Plain(&refs, 0)),
+                        Bls12::miller_loop(&refs),
+                        Bls12::miller_loop(nested.iter().flatten()),
+                        Bls12::miller_loop(refs[..half].iter().chain(refs[half..].iter())),
+                        Bls12::miller_loop(rev.iter().rev()),
+                        Bls12::miller_loop(refs.iter().skip_while(|_| false)),
+                    ];
+                    out.insert("forms".into(), Value::Array(forms.iter().map(|m| fq12_opt(Bls12::final_exponentiation(m))).collect()));
+                    }
                 }
                 "pmulti" => {
                     out.insert("v".into(), Bls12::pairing_multi_product(&ps, &qs).to_j());
